@@ -148,3 +148,82 @@ Section Maps.
     cbn [fold_left]. apply IH, NoDup_set, H.
   Qed.
 End Maps.
+
+(* ---------- the batching protocol only redistributes the ranged items ---------- *)
+Section Proto.
+  Context {A : Type}.
+
+  Lemma NoDup_app_l (l l' : list A) : NoDup (l ++ l') -> NoDup l.
+  Proof.
+    induction l as [|x l IH]; cbn; intros H; [constructor|]. inversion H; subst.
+    constructor; [rewrite in_app_iff in *; tauto|auto].
+  Qed.
+
+  Lemma respond_perm (buf : list A) r :
+    Permutation buf (fst (fst (respond buf r)) ++ snd (fst (respond buf r)) ++ snd (respond buf r)).
+  Proof.
+    unfold respond. cbn [fst snd]. rewrite <- (firstn_skipn (fst r) buf) at 1.
+    apply Permutation_app_head. destruct (snd r); [|reflexivity].
+    destruct (skipn (fst r) buf); reflexivity.
+  Qed.
+
+  Lemma applied_of_app (calls : list (list A * (nat * bool))) c :
+    applied_of (calls ++ [c]) = applied_of calls ++ firstn (fst (snd c)) (fst c).
+  Proof. unfold applied_of. rewrite map_app, concat_app. cbn. rewrite app_nil_r. reflexivity. Qed.
+
+  Lemma ploop1_perm bs : forall (rng buf : list A) resps calls rest,
+    let '(buf', _, calls', rest') := ploop1 bs rng buf resps calls rest in
+    Permutation (applied_of calls ++ rest ++ buf ++ rng) (applied_of calls' ++ rest' ++ buf').
+  Proof.
+    induction rng as [|x rng IH]; intros buf resps calls rest; cbn [ploop1].
+    - rewrite app_nil_r. reflexivity.
+    - destruct (Nat.eqb (length (buf ++ [x])) bs).
+      + pose proof (respond_perm (buf ++ [x]) (hd (0%nat, false) resps)) as P.
+        destruct (respond (buf ++ [x]) (hd (0%nat, false) resps)) as [[ap sk] buf2] eqn:E. cbn [fst snd] in P.
+        specialize (IH buf2 (tl resps) (calls ++ [(buf ++ [x], hd (0%nat, false) resps)]) (rest ++ sk)).
+        destruct (ploop1 bs rng buf2 _ _ _) as [[[buf' resps'] calls'] rest'].
+        rewrite <- IH. rewrite applied_of_app. cbn [fst snd].
+        assert (ap = firstn (fst (hd (0%nat, false) resps)) (buf ++ [x])) as <- by (unfold respond in E; congruence).
+        replace (buf ++ x :: rng) with ((buf ++ [x]) ++ rng) by (rewrite <- app_assoc; reflexivity).
+        rewrite P. rewrite <- !app_assoc. apply Permutation_app_head. apply Permutation_app_swap_app.
+      + specialize (IH (buf ++ [x]) resps calls rest).
+        destruct (ploop1 bs rng (buf ++ [x]) resps calls rest) as [[[buf' resps'] calls'] rest'].
+        rewrite <- IH. rewrite <- app_assoc. reflexivity.
+  Qed.
+
+  Lemma ptail_perm : forall resps (buf : list A) calls rest,
+    let '(calls', rest') := ptail buf resps calls rest in
+    Permutation (applied_of calls ++ rest ++ buf) (applied_of calls' ++ rest').
+  Proof.
+    induction resps as [|r resps IH]; intros buf calls rest; cbn [ptail]; [reflexivity|].
+    destruct buf as [|b buf]; [rewrite app_nil_r; reflexivity|].
+    pose proof (respond_perm (b :: buf) r) as P.
+    destruct (respond (b :: buf) r) as [[ap sk] buf2] eqn:E. cbn [fst snd] in P.
+    specialize (IH buf2 (calls ++ [(b :: buf, r)]) (rest ++ sk)).
+    destruct (ptail buf2 resps _ _) as [calls' rest'].
+    rewrite <- IH. rewrite applied_of_app. cbn [fst snd].
+    assert (ap = firstn (fst r) (b :: buf)) as <- by (unfold respond in E; congruence).
+    rewrite P. rewrite <- !app_assoc. apply Permutation_app_head. apply Permutation_app_swap_app.
+  Qed.
+
+  Lemma proto_perm bs (rng : list A) resps :
+    Permutation rng (applied_of (fst (proto bs rng resps)) ++ snd (proto bs rng resps)).
+  Proof.
+    unfold proto. pose proof (ploop1_perm bs rng [] resps [] []) as P1.
+    destruct (ploop1 bs rng [] resps [] []) as [[[buf resps'] calls] rest].
+    pose proof (ptail_perm resps' buf calls rest) as P2.
+    destruct (ptail buf resps' calls rest) as [calls' rest']. cbn [fst snd].
+    cbn in P1. rewrite P1. exact P2.
+  Qed.
+End Proto.
+
+Lemma proto_applied_keys {V} bs (rng : amap V) resps :
+  NoDup (keys rng) ->
+  NoDup (keys (applied_of (fst (proto bs rng resps)))) /\
+  (forall kv, In kv (applied_of (fst (proto bs rng resps))) -> In kv rng).
+Proof.
+  intros ND. pose proof (proto_perm bs rng resps) as P. split.
+  - apply (Permutation_map fst) in P. rewrite map_app in P.
+    apply (NoDup_app_l _ (map fst (snd (proto bs rng resps)))). eapply Permutation_NoDup; [exact P|exact ND].
+  - intros kv H. eapply Permutation_in; [symmetry; exact P|]. apply in_or_app. left. exact H.
+Qed.
